@@ -7,13 +7,18 @@ G: the same module with Emit=TRUE prints every (curve, reduction, knee positions
    removed = rdp.compute_removed_points(points, reduced) and add_points_even_knees(points, knees, tx, ty, extremes).
 T: random real-valued curves: per-gap classes (wide, high) and counts m computed over exact rationals of the float
    inputs, exact height ranks; Trace_Filters rebuilds the documented set and compares with the returned array.
-   Calls whose decisions are within rounding noise of a threshold / an integer are flagged ambiguous (not judged)."""
+   Calls whose decisions are within rounding noise of a threshold / an integer are flagged ambiguous (not judged).
+S: the scale family - production-size curves (2^8 .. 10^5 points, sizes straddling 2^8, 2^10, 2^12, 10^4, 2^14, 2^15, 2^16,
+   10^5) rebuilt from small recipes, replayed under loop budgets, judged by Trace_EvenScale with SPARSE tables (gap classes
+   and counts of the marker pairs, exact height ranks of the mentioned indices only)."""
+import json
 import math
+import random
 from fractions import Fraction
 
 import numpy as np
 
-from harness import curves, numeric, par, tlc
+from harness import curves, monitor, numeric, par, scale, tlc
 
 
 def _ints(a):
@@ -178,6 +183,334 @@ def _report(ctx, seen, key, clause, case, detail, limit=2):
         ctx.violation(clause, case, detail)
 
 
+# --------------------------------------------------------------------------- S (scale)
+# A case is a small RECIPE (family, shape, n, integer seed, function, thresholds, extremes); the curve, the markers and
+# the knees are rebuilt from it deterministically, so replay files stay small although the call is long.
+S_TX = [0.05, 0.02, 0.1, 1.0 / 16, 0.004, 0.001, 0.0003]
+S_TY = [0.05, 0.01, 0.1, 0.25, 0.0005, 0.002]
+S_SHAPES = ["mrc", "stair", "zigzag", "spikes", "valley", "convex", "decay", "noisy"]
+S_XMODES = ["unit", "unit", "steps", "milli", "jit"]
+
+
+def _seams(n):
+    """indices next to the sizes at which blocked / narrowed / sampled code changes its path"""
+    return sorted({k for t in scale.THRESHOLDS for k in (t - 2, t - 1, t, t + 1) if 1 <= k < n - 1})
+
+
+def _s_shape(shape, n, rng, g):
+    i = np.arange(n, dtype=float)
+    if shape == "mrc":
+        return scale.mrc(n, rng, knees=6)[:, 1]
+    if shape == "stair":
+        return scale.staircase(n, rng.choice([8, 64, 300]), rng=rng, jitter=rng.choice([0, 0, 3]))[:, 1]
+    if shape == "zigzag":
+        return scale.zigzag(n)[:, 1]
+    if shape == "spikes":
+        return scale.spikes(n, rng.choice([4, 7, 50]))[:, 1]
+    if shape == "valley":
+        return scale.valley(n, rng)[:, 1]
+    if shape == "convex":
+        return scale.convex_pl(n, rng.choice([3, 20]))[:, 1]
+    if shape == "decay":
+        return 1.0 / (1.0 + 8.0 * i / n) + 0.2 * np.exp(-40.0 * i / n)
+    if shape == "noisy":
+        return 1000.0 * np.exp(-3.0 * i / n) + g.normal(0.0, 5.0, n)
+    raise ValueError(shape)
+
+
+def _s_x(mode, n, g):
+    i = np.arange(n, dtype=float)
+    if mode == "unit":
+        return i
+    if mode == "steps":
+        return np.concatenate([[0.0], np.cumsum(g.choice([0.5, 1.0, 1.5, 3.0], n - 1))])
+    if mode == "milli":
+        return 7.25 + i * 1e-3
+    if mode == "jit":
+        return i + g.uniform(-0.3, 0.3, n)
+    raise ValueError(mode)
+
+
+def _pick_pos(n, rng, avoid=()):
+    """an interior index: next to a seam half of the time, odd otherwise (not on an even stride)"""
+    for _ in range(64):
+        sm = _seams(n)
+        k = rng.choice(sm) if (sm and rng.random() < 0.5) else (rng.randrange(1, n - 1) | 1)
+        if 1 <= k < n - 1 and k not in avoid:
+            return k
+    return next(k for k in range(1, n - 1) if k not in avoid)
+
+
+def _s_markers(rec, n, rng, pool=None):
+    """(kind-specific call arguments) markers among `pool` (all indices when None)"""
+    sm = [k for k in _seams(n) if rng.random() < 0.5]
+    if rec["fn"] == "reduced":
+        r = min(rng.choice([3, 8, 40, 200, 1000]), max(3, n // 4))
+        if pool is None:
+            inner = set(rng.sample(range(1, n - 1), r - 2)) | set(sm)
+        else:
+            p = rng.choice([0.2, 0.5, 1.0])
+            inner = {k for k in pool if 0 < k < n - 1 and rng.random() < p}
+        red = [0] + sorted(inner) + [n - 1]
+        kpos = sorted(rng.sample(range(len(red)), rng.randint(0, min(len(red), 60))))
+        if rng.random() < 0.5:
+            kpos = sorted(set(kpos) | {len(red) - 1 - rng.randrange(0, min(3, len(red)))})
+        return {"reduced": red, "kpos": kpos}
+    if pool is None:
+        k = min(rng.choice([1, 3, 12, 80, 300]), n // 4)
+        knees = set(rng.sample(range(n), k)) | set(rng.sample(sm, min(len(sm), 3)))
+    else:
+        p = rng.choice([0.1, 0.4, 1.0])
+        knees = {k for k in pool if rng.random() < p} or {pool[len(pool) // 2]}
+    return {"knees": sorted(knees)}
+
+
+def _s_build(rec):
+    """recipe -> (P float64 (n, 2), call arguments, exact: all decisions are exact in binary64)"""
+    n, fam = rec["n"], rec["fam"]
+    rng = random.Random(rec["seed"])
+    g = np.random.default_rng(rec["seed"])
+    if fam == "float":
+        y = np.array(_s_shape(rec["shape"], n, rng, g), dtype=float)
+        x = _s_x(rec["xmode"], n, g)
+        if rec["iso"]:                       # both y extremes are single isolated points
+            lo, hi = float(y.min()), float(y.max())
+            p = _pick_pos(n, rng)
+            q = _pick_pos(n, rng, avoid=(p,))
+            y[p] = hi + (hi - lo) * rng.choice([0.25, 1.0])
+            y[q] = lo - (hi - lo) * rng.choice([0.25, 1.0])
+        args = _s_markers(rec, n, rng)
+        exact = False
+    elif fam == "dyadic":
+        # integer x with range 2^K, 65 forced abscissae at the multiples of 2^(K-6); integer y with range 2^L, multiples of
+        # 2^(L-6) at the forced points; markers on forced points and dyadic thresholds: widths, heights and the ceil
+        # argument are dyadic rationals with few bits - binary64 evaluates them exactly, ties included
+        K = max(8, (n - 2).bit_length()) + rng.choice([0, 0, 1])
+        step = 1 << (K - 6)
+        forced = np.arange(0, (1 << K) + 1, step)
+        others = np.setdiff1d(np.arange((1 << K) + 1), forced)
+        x = np.sort(np.concatenate([forced, g.choice(others, n - len(forced), replace=False)])).astype(float)
+        fpos = [int(v) for v in np.searchsorted(x, forced)]
+        L = rng.choice([6, 8, 10])
+        unit = 1 << (L - 6)
+        top = 1 << L
+        y = np.floor((1.0 - x / (1 << K)) * top)
+        if L >= 8:
+            y = y + g.integers(-2, 3, n)
+        y = np.clip(y, 1, top - 1)
+        for j, k in enumerate(fpos):
+            y[k] = min(max((64 - j + rng.choice([-1, 0, 0, 1])) * unit, unit), top - unit)
+        fset = set(fpos)
+        imax = 0 if rng.random() < 0.5 else _pick_pos(n, rng, avoid=fset)
+        imin = n - 1 if rng.random() < 0.5 else _pick_pos(n, rng, avoid=fset | {imax})
+        y[imax], y[imin] = top, 0
+        args = _s_markers(rec, n, rng, pool=fpos)
+        exact = True
+    else:                                    # dense: thousands of markers / knees / inserted points
+        y = np.array(_s_shape(rec["shape"], n, rng, g), dtype=float)
+        x = _s_x(rec["xmode"], n, g)
+        big = rec["big"]
+        if rec["mode"] == "markers":         # many retained points or many marker knees
+            inner = sorted(rng.sample(range(1, n - 1), big))
+            if rec["fn"] == "reduced":
+                red = [0] + inner + [n - 1]
+                args = {"reduced": red, "kpos": sorted(rng.sample(range(len(red)), rng.choice([5, len(red) // 3])))}
+            else:
+                args = {"knees": inner}
+        else:                                # one long gap receiving `big` (about) inserted points
+            cut = sorted(rng.sample(range(1, n - 1), 2))
+            if rec["fn"] == "reduced":
+                args = {"reduced": [0] + cut + [n - 1], "kpos": [0, 2]}
+            else:
+                args = {"knees": cut}
+        exact = False
+    assert np.all(np.diff(x) > 0) and np.ptp(y) > 0          # the property's domain
+    return np.ascontiguousarray(np.column_stack([x, y])), args, exact
+
+
+def _exact_sparse(P, markers, tx, ty, exact):
+    """_exact_tables without the O(n) rational tables: only the marker points are converted.  exact=True (dyadic family):
+    nothing is ambiguous as long as the binary64 evaluation of every decision equals its rational value (checked)."""
+    xs, ys = P[:, 0], P[:, 1]
+    dx = Fraction(float(xs.max())) - Fraction(float(xs.min()))
+    dy = Fraction(float(ys.max())) - Fraction(float(ys.min()))
+    fdx, fdy = float(dx), float(dy)
+    ftx, fty = Fraction(float(tx)), Fraction(float(ty))
+    X = {k: Fraction(float(xs[k])) for k in set(markers)}
+    Y = {k: Fraction(float(ys[k])) for k in set(markers)}
+    gaps, amb, ties = [], False, 0
+    for a, b in zip(markers[:-1], markers[1:]):
+        W = abs(X[b] - X[a]) / dx
+        Hh = abs(Y[b] - Y[a]) / dy
+        wide, high = W > 2 * ftx, Hh > fty
+        m = 0
+        if exact:
+            ties += int(W == 2 * ftx) + int(Hh == fty) + int(wide and (W / (2 * ftx)).denominator == 1)
+            pdx = math.fabs(float(xs[b]) - float(xs[a])) / fdx
+            pdy = math.fabs(float(ys[b]) - float(ys[a])) / fdy
+            if Fraction(fdx) != dx or Fraction(fdy) != dy or Fraction(pdx) != W or Fraction(pdy) != Hh:
+                amb = True
+            if wide:
+                r = W / (2 * ftx)
+                m = int(math.ceil(r))
+                if Fraction(pdx / (2.0 * tx)) != r:
+                    amb = True
+        else:
+            if abs(float(W) - 2.0 * tx) <= 1e-12 or abs(float(Hh) - ty) <= 1e-12:
+                amb = True
+            if wide:
+                r = W / (2 * ftx)
+                m = int(math.ceil(r))
+                if abs(float(r) - round(float(r))) <= 1e-9:
+                    amb = True
+        gaps.append([int(a), int(b), bool(wide), bool(high), int(m)])
+    return gaps, amb, ties
+
+
+def _s_call(kind, P, args, tx, ty, ext):
+    n = len(P)
+    return monitor.call(_call, (kind, P, args, tx, ty, ext), budget=monitor.quad(n, 8), wall=300)
+
+
+def _s_record(rec):
+    """recipe -> (sparse case for Trace_EvenScale, summary for the evidence)"""
+    P, args, exact = _s_build(rec)
+    n, kind, tx, ty, ext = len(P), rec["fn"], rec["tx"], rec["ty"], bool(rec["extremes"])
+    if kind == "reduced":
+        markers = list(args["reduced"])
+        kmap = [markers[p] for p in args["kpos"]]
+    else:
+        markers = [0] + list(args["knees"]) + [n - 1]
+        kmap = list(args["knees"])
+    gaps, amb, ties = _exact_sparse(P, markers, tx, ty, exact)
+    Q = P.astype(np.int64) if rec.get("dtype") == "int64" else P
+    outcome, val, _ = _s_call(kind, Q, args, tx, ty, ext)
+    out, raised = [], ""
+    if outcome == "returned":
+        out = val
+    else:
+        raised = "%s: %s" % (_fn(kind), outcome.split(":", 1)[-1])
+    union = set(kmap)
+    for a, b, w, h, m in gaps:
+        if w and h:
+            inc = (b - a) // m
+            union.update(a + j * inc for j in range(1, m + 1))
+    if ext:
+        union |= {0, n - 1}
+    idx = sorted(union | {k for k in out if 0 <= k < n})
+    yv = P[idx, 1] if idx else np.zeros(0)
+    hr = [int(v) for v in np.searchsorted(np.unique(yv), yv)]          # exact dense ranks among the mentioned points
+    cand = sum(1 for g in gaps if g[2] and g[3])
+    c = {"id": rec["id"], "kind": "c14s", "n": n, "gaps": [g for g in gaps if g[2] or g[3]], "kmap": kmap,
+         "extremes": ext, "idx": idx, "hr": hr, "raised": raised, "out": out}
+    info = {"ambiguous": amb, "candidates": cand, "markers": len(markers), "union": len(union), "returned": len(out),
+            "inserted": sum(g[4] for g in gaps if g[2] and g[3]), "past_int16": sum(1 for k in union if k > 32767), "ties": ties}
+    return c, info
+
+
+S_STATIC = {"kind": "c14s", "n": 100001, "raised": "", "extremes": True, "kmap": [20000],
+            # markers 0 - 20000 - 80000 - 100000: (20000, 80000) wide and high with m = 3 -> inc 20000 -> 40000, 60000, 80000
+            "gaps": [[0, 20000, True, False, 1], [20000, 80000, True, True, 3], [80000, 100000, False, True, 0]],
+            "idx": [0, 20000, 40000, 60000, 80000, 100000], "hr": [4, 3, 2, 3, 1, 1],
+            # index 60000 (rank 3 > 2) is dropped, the tie at 100000 is kept
+            "out": [0, 20000, 40000, 80000, 100000]}
+
+
+def _s_selftests():
+    c = S_STATIC
+    return [(c, "ok"),
+            (dict(c, out=[0, 20000, 40000, 60000, 80000, 100000]), "height-filtered"),
+            (dict(c, out=[0, 20000, 80000, 100000]), "equals-documented-set"),
+            (dict(c, out=[0, 20000, 40000, 80000]), "extremes-included"),
+            (dict(c, out=[-32768, 0, 20000, 40000, 80000]), "valid-indices"),
+            (dict(c, out=[0, 20000, 40000, 80000, 100001]), "valid-indices"),
+            (dict(c, out=[0, 40000, 20000, 80000, 100000]), "valid-indices"),
+            (dict(c, idx=c["idx"][:-1], hr=c["hr"][:-1]), "TABLE"),
+            (dict(c, raised="add_points_even: budget"), "completes")]
+
+
+def _s_recipes(ctx):
+    rng = ctx.rng
+    q = ctx.quick
+    ns = set(scale.sizes(ctx, lo=256, hi=110000, k_quick=6, k_thorough=14))
+    ns |= {t for t in scale.THRESHOLDS} | {t + 1 for t in scale.THRESHOLDS} | {50000}
+    if not q:
+        ns |= {t - 1 for t in scale.THRESHOLDS} | {3 * t // 2 + rng.randrange(0, 9) for t in scale.THRESHOLDS if 3 * t // 2 < 110000}
+    ns = sorted(ns)
+    recs = []
+
+    def add(base, exts=(False, True)):
+        for ext in exts:
+            recs.append(dict(base, id="s%d" % len(recs), extremes=ext))
+
+    for n in ns:
+        for _ in range(3 if q else 10):
+            add({"fam": "float", "n": n, "seed": rng.randrange(1 << 30), "shape": rng.choice(S_SHAPES),
+                 "xmode": rng.choice(S_XMODES), "iso": rng.random() < 0.5, "fn": rng.choice(["reduced", "markers"]),
+                 "tx": rng.choice(S_TX), "ty": rng.choice(S_TY)})
+        for _ in range(2 if q else 6):
+            add({"fam": "dyadic", "n": n, "seed": rng.randrange(1 << 30), "fn": rng.choice(["reduced", "markers"]),
+                 "tx": 2.0 ** -rng.choice([4, 5, 6, 7, 8]), "ty": 2.0 ** -rng.choice([2, 3, 4, 5, 6]),
+                 "dtype": rng.choice(["float64", "float64", "int64"])})
+    # dense: every (mode, function, magnitude) combination once, on a random admissible size, plus a few free draws
+    bigs = [300, 1200, 4200] if q else [300, 1200, 4200, 9000, 17000]
+    combos = [(mode, fn, big) for mode in ("markers", "gap") for fn in ("reduced", "markers") for big in bigs]
+    combos += [(rng.choice(["markers", "gap"]), rng.choice(["reduced", "markers"]), rng.choice(bigs)) for _ in range(4 if q else 12)]
+    for mode, fn, big in combos:
+        n = rng.choice([v for v in ns if v // 3 >= big + 40])
+        big += rng.randrange(0, 40)
+        # markers: mean normalised gap width 1/big, tx such that the mean ceil argument is 1/u; gap: about `big` points
+        u = rng.uniform(0.25, 1.3)
+        add({"fam": "dense", "n": n, "seed": rng.randrange(1 << 30), "shape": rng.choice(["decay", "decay", "noisy", "mrc"]),
+             "xmode": rng.choice(["unit", "steps"]), "mode": mode, "big": big, "fn": fn,
+             "tx": (u / (2.0 * big)) if mode == "markers" else 1.0 / (2.0 * big * rng.uniform(1.0, 1.5)),
+             "ty": (0.2 / big) if mode == "markers" else rng.choice([0.01, 0.0005])}, exts=(rng.random() < 0.5,))
+    return ns, recs
+
+
+def _scale_family(ctx, seen):
+    ns, recs = _s_recipes(ctx)
+    res = par.pmap(_s_record, recs, chunksize=1)
+    meta = {r["id"]: r for r in recs}
+    judged = [c for (c, inf) in res if not inf["ambiguous"]]
+    # the JSON of one TLC run stays below about 3 MB: dense cases (long unions) travel in their own, smaller, chunks
+    size = {c["id"]: len(json.dumps(c)) for c in judged}
+    dense = [c for c in judged if meta[c["id"]]["fam"] == "dense"]
+    rej = ctx.trace("Trace_EvenScale", [c for c in judged if meta[c["id"]]["fam"] != "dense"], selftest=_s_selftests(), chunk=150)
+    if dense:
+        rej.update(ctx.trace("Trace_EvenScale", dense, chunk=max(2, 3000000 // max(size[c["id"]] for c in dense))))
+    by = {}
+    for (c, inf), r in zip(res, recs):
+        ctx.count(("S", r), (not inf["ambiguous"]) and inf["candidates"] > 0)
+        k = by.setdefault(r["fam"], {"cases": 0, "ambiguous_not_judged": 0, "with_candidates": 0, "max_markers": 0,
+                                     "max_inserted": 0, "max_union": 0, "max_returned": 0, "with_index_past_32767": 0,
+                                     "exact_ties_decided": 0})
+        k["cases"] += 1
+        k["ambiguous_not_judged"] += int(inf["ambiguous"])
+        k["with_candidates"] += int(inf["candidates"] > 0)
+        k["with_index_past_32767"] += int(inf["past_int16"] > 0)
+        k["exact_ties_decided"] += 0 if inf["ambiguous"] else inf["ties"]
+        for a, b in (("max_markers", "markers"), ("max_inserted", "inserted"), ("max_union", "union"), ("max_returned", "returned")):
+            k[a] = max(k[a], inf[b])
+    for cid, vs in rej.items():
+        r = meta[cid]
+        for v in vs:
+            if v[0] == "TABLE":
+                raise tlc.TLCFailure("Trace_EvenScale: sparse table of case %s is inconsistent: %s (recipe %r)" % (cid, v, r))
+            _report(ctx, seen, "S/%s/%s/%s" % (v[0], r["fn"], r["extremes"]), v[0], {"kind": "S", "recipe": r},
+                    {"f": _fn(r["fn"]), "n": r["n"], "family": r["fam"], "verdict": v})
+    ctx.extra["scale"] = {"sizes": ns, "cases": len(recs), "by_family": by, "json_bytes_to_tlc": sum(size.values()),
+                          "largest_case_json_bytes": max(size.values())}
+    ctx.note("scale family: %d calls on curves of %d sizes from %d to %d points (float / dyadic-tie / dense families, both "
+             "functions, both extremes settings), judged by Trace_EvenScale on sparse tables" % (len(recs), len(ns), ns[0], ns[-1]))
+    pick = next(((c, inf, r) for (c, inf), r in zip(res, recs)
+                 if r["fam"] == "float" and r["n"] > 32768 and 2 <= inf["candidates"] and inf["returned"] < inf["union"] <= 40
+                 and not inf["ambiguous"]), None)
+    if pick is not None:
+        c, inf, r = pick
+        ctx.sample({"binding": "S", "recipe": r, "case": c, "summary": inf})
+
+
 def run(ctx):
     ctx.rule = ("G: unit-spaced curves with n-1 = 8, heights 0..4 (12 fixed profiles: staircases, plateaus, tent, zigzag, "
                 "noisy, increasing), every reduction with <= 5 retained points x every subset of knee positions "
@@ -187,6 +520,14 @@ def run(ctx):
                 "knees and thresholds.  non-trivial: at least one candidate segment, or the height filter drops an index"
                 % ("" if ctx.quick else "; thorough adds n-1 = 16 (6 profiles, <= 4 retained points, <= 3 marker knees) and all "
                                         "140 monotone unit staircases on the 8-grid (<= 3 retained points, <= 2 marker knees)"))
+    ctx.rule += ("  S (scale): curves of 2^8 .. 1.1*10^5 points (every size threshold 2^8, 2^10, 2^12, 10^4, 2^14, 2^15, 2^16, 10^5 "
+                 "itself, +1 and seed-dependent ragged sizes above it) in three families - float (8 shapes x 4 abscissa layouts, "
+                 "optionally isolated y extremes, random retained points / knees incl. indices next to the thresholds), dyadic "
+                 "(integer abscissae and ordinates with power-of-two ranges, markers and thresholds on dyadic values so that "
+                 "exact ties W = 2tx, H = ty, integral W/(2tx) are decided, float64 / int64) and dense (hundreds to tens of "
+                 "thousands of retained points, marker knees or inserted points) - x both functions x extremes in {False, True}, "
+                 "each call judged for completes / valid-indices / equals-documented-set / extremes-included / height-filtered "
+                 "by Trace_EvenScale on sparse tables.")
     ctx.assumptions += [
         "G domain: dyadic grids - |dx|/range, 2*tx and their quotient are exact in binary64; |dy|/range is one correctly "
         "rounded division of small integers compared with a dyadic ty, which decides like the rational",
@@ -194,7 +535,12 @@ def run(ctx):
         "add_points_even_knees is driven with non-empty ascending knee lists (the code reads knees[0] and knees[-1])",
         "T: widths/heights/ceil arguments are computed over exact rationals of the float inputs; a call is flagged ambiguous "
         "(not judged) when W is within 1e-12 of 2*tx, H within 1e-12 of ty, or W/(2*tx) within 1e-9 of an integer; "
-        "heights are compared exactly (dense ranks without noise merging)"]
+        "heights are compared exactly (dense ranks without noise merging)",
+        "S: the same exact-rational classes, computed for the marker pairs only; the ambiguity rule of T applies to the float "
+        "and dense families; the dyadic family is judged on ties too, a call being set aside only if some binary64 "
+        "intermediate (range, normalised width / height, ceil argument) differs from its rational value (never observed); "
+        "height ranks are exact dense ranks among the indices a case mentions (documented union and returned indices); "
+        "calls run under monitor.call with a back-edge budget of monitor.quad(n, 8) and 300 s of CPU"]
     ctx.mc("Gen_EvenPoints", "MC_EvenPoints", need_actions=("Compute", "EmitCase"))
     beh = ctx.gen("Gen_EvenPoints", "Gen_EvenPoints_quick" if ctx.quick else "Gen_EvenPoints_thorough",
                   workers=16, timeout=3000)
@@ -238,11 +584,13 @@ def run(ctx):
             _report(ctx, seen, "T/%s/%s/%s" % (v[0], kind, ext), v[0],
                     {"kind": "T", "fn": kind, "points": pts, "args": case, "tx": tx, "ty": ty, "extremes": ext},
                     {"f": _fn(kind), "verdict": v})
-    ctx.extra["violating_cases_by_clause"] = dict(seen)
     big = max(judged, key=lambda c: sum(1 for g in c["gaps"] if g[2] and g[3]) if c["n"] <= 14 else -1)
     m = meta[big["id"]]
     ctx.sample({"binding": "T", "call": {"fn": _fn(m[1]), "points": m[2], "args": m[3], "tx": m[4], "ty": m[5],
                                          "extremes": m[6]}, "case": big})
+    # ---- S
+    _scale_family(ctx, seen)
+    ctx.extra["violating_cases_by_clause"] = dict(seen)
 
 
 def replay(ctx, obj):
@@ -251,6 +599,18 @@ def replay(ctx, obj):
         r = _check_combo(case["case"], case["combo"])
         if r is not None:
             ctx.violation(r[0], case, r[1])
+    elif case["kind"] == "S":
+        r = dict(case["recipe"], id="replay")
+        c, inf = _s_record(r)
+        if inf["ambiguous"]:
+            print("replay: call is within rounding noise of a threshold (ambiguous, not judged)")
+            return
+        rej = ctx.trace("Trace_EvenScale", [c])
+        for cid, vs in rej.items():
+            for v in vs:
+                if v[0] == "TABLE":
+                    raise tlc.TLCFailure("Trace_EvenScale: sparse table of the replayed case is inconsistent: %s" % (v,))
+                ctx.violation(v[0], case, {"f": _fn(r["fn"]), "n": r["n"], "family": r["fam"], "verdict": v})
     else:
         c = _record(("replay", case["fn"], case["points"], case["args"], case["tx"], case["ty"], case["extremes"]))
         if c["ambiguous"]:
